@@ -1,8 +1,13 @@
 #!/bin/sh
-# Regenerates go.mod / go.sum of the harness module from /repo's current go.mod (run by ./check).
+# Regenerates the harness module's go.mod / go.sum from $VERIF_REPO's (default /repo) current go.mod.
+# usage: gen_gomod.sh [outdir]   (default: the harness directory itself, always pointing at /repo;
+# ./check passes a per-run directory and builds with `go build -modfile=<outdir>/go.mod`, so that runs
+# against a scratch copy (VERIF_REPO=...) never disturb concurrent builds)
 set -e
-REPO=${VERIF_REPO:-/repo}
-cd "$(dirname "$0")"
+HERE="$(cd "$(dirname "$0")" && pwd)"
+OUT="${1:-$HERE}"
+if [ "$OUT" = "$HERE" ]; then REPO=/repo; else REPO=${VERIF_REPO:-/repo}; fi
+mkdir -p "$OUT"
 {
   echo "module polyverif"
   echo
@@ -13,5 +18,7 @@ cd "$(dirname "$0")"
   echo "replace github.com/polynetwork/poly => $REPO"
   echo
   awk '/^replace \(/{f=1;print;next} f&&/^\)/{print;f=0;next} f{print}' "$REPO/go.mod"
-} > go.mod
-cp "$REPO/go.sum" go.sum
+} > "$OUT/go.mod.tmp.$$"
+mv "$OUT/go.mod.tmp.$$" "$OUT/go.mod"
+cp "$REPO/go.sum" "$OUT/go.sum.tmp.$$"
+mv "$OUT/go.sum.tmp.$$" "$OUT/go.sum"
